@@ -66,6 +66,8 @@ func fmtHevcTypes(l []hevc.NaluType) string {
 // it" fast path) corrupts whatever the caller keeps behind the stream.
 func call(fn, args string, in []byte) (res string) {
 	res = callOn(fn, args, hx.Exact(in))
+	render := lastRender
+	defer func() { lastRender = render }() // the values returned by the run on the exact-capacity copy (see hygABA)
 	if fn == "hzb" {
 		return res
 	}
@@ -86,8 +88,13 @@ func call(fn, args string, in []byte) (res string) {
 	return res
 }
 
+// lastRender re-renders the slice-valued result of the last callOn from the values the library returned (nil for
+// scalar results, errors and panics): hygABA evaluates it again after LATER calls.
+var lastRender func() string
+
 // callOn runs fn on d itself.
 func callOn(fn, args string, d []byte) (res string) {
+	lastRender = nil
 	var a []int
 	if args != "-" {
 		for _, s := range strings.Split(args, ",") {
@@ -101,15 +108,22 @@ func callOn(fn, args string, d []byte) (res string) {
 			res = "ok:" + fmtBool(avc.VerifHasZeroByte(uint(binary.LittleEndian.Uint64(d))))
 		case "scan":
 			scs, m := avc.VerifGetStartCodePositions(d)
-			ss := make([]string, len(scs))
-			for i, s := range scs {
-				ss[i] = fmt.Sprintf("%d:%d", s.StartCodeLength, s.StartPos)
+			lastRender = func() string {
+				ss := make([]string, len(scs))
+				for i, s := range scs {
+					ss[i] = fmt.Sprintf("%d:%d", s.StartCodeLength, s.StartPos)
+				}
+				return fmt.Sprintf("ok:%d;%s", m, strings.Join(ss, ","))
 			}
-			res = fmt.Sprintf("ok:%d;%s", m, strings.Join(ss, ","))
+			res = lastRender()
 		case "b2s":
-			res = "ok:" + hx.Hex(avc.ConvertByteStreamToNaluSample(d))
+			o := avc.ConvertByteStreamToNaluSample(d)
+			lastRender = func() string { return "ok:" + hx.Hex(o) }
+			res = lastRender()
 		case "s2b":
-			res = "ok:" + hx.Hex(avc.ConvertSampleToByteStream(d))
+			o := avc.ConvertSampleToByteStream(d)
+			lastRender = func() string { return "ok:" + hx.Hex(o) }
+			res = lastRender()
 		case "rt": // search only: stream -> sample -> stream
 			res = "ok:" + hx.Hex(avc.ConvertSampleToByteStream(avc.ConvertByteStreamToNaluSample(d)))
 		case "gnfs":
@@ -117,14 +131,21 @@ func callOn(fn, args string, d []byte) (res string) {
 			if err != nil {
 				res = "err"
 			} else {
-				res = "ok:" + fmtList(l)
+				lastRender = func() string { return "ok:" + fmtList(l) }
+				res = lastRender()
 			}
 		case "enb":
-			res = "ok:" + fmtList(avc.ExtractNalusFromByteStream(d))
+			l := avc.ExtractNalusFromByteStream(d)
+			lastRender = func() string { return "ok:" + fmtList(l) }
+			res = lastRender()
 		case "avc_fnt":
-			res = "ok:" + fmtAvcTypes(avc.FindNaluTypes(d))
+			l := avc.FindNaluTypes(d)
+			lastRender = func() string { return "ok:" + fmtAvcTypes(l) }
+			res = lastRender()
 		case "avc_fntv":
-			res = "ok:" + fmtAvcTypes(avc.FindNaluTypesUpToFirstVideoNALU(d))
+			l := avc.FindNaluTypesUpToFirstVideoNALU(d)
+			lastRender = func() string { return "ok:" + fmtAvcTypes(l) }
+			res = lastRender()
 		case "avc_cnt":
 			res = "ok:" + fmtBool(avc.ContainsNaluType(d, avc.NaluType(a[0])))
 		case "avc_idr":
@@ -133,18 +154,28 @@ func callOn(fn, args string, d []byte) (res string) {
 			res = "ok:" + fmtBool(avc.HasParameterSets(d))
 		case "avc_gps":
 			s, p := avc.GetParameterSets(d)
-			res = "ok:[];" + fmtList(s) + ";" + fmtList(p)
+			lastRender = func() string { return "ok:[];" + fmtList(s) + ";" + fmtList(p) }
+			res = lastRender()
 		case "avc_gpsb":
 			s, p := avc.GetParameterSetsFromByteStream(d)
-			res = "ok:[];" + fmtList(s) + ";" + fmtList(p)
+			lastRender = func() string { return "ok:[];" + fmtList(s) + ";" + fmtList(p) }
+			res = lastRender()
 		case "avc_enot":
-			res = "ok:" + fmtList(avc.ExtractNalusOfTypeFromByteStream(avc.NaluType(a[0]), d, a[1] == 1))
+			l := avc.ExtractNalusOfTypeFromByteStream(avc.NaluType(a[0]), d, a[1] == 1)
+			lastRender = func() string { return "ok:" + fmtList(l) }
+			res = lastRender()
 		case "avc_gfv":
-			res = "ok:" + hx.Hex(avc.GetFirstAVCVideoNALUFromByteStream(d))
+			o := avc.GetFirstAVCVideoNALUFromByteStream(d)
+			lastRender = func() string { return "ok:" + hx.Hex(o) }
+			res = lastRender()
 		case "hevc_fnt":
-			res = "ok:" + fmtHevcTypes(hevc.FindNaluTypes(d))
+			l := hevc.FindNaluTypes(d)
+			lastRender = func() string { return "ok:" + fmtHevcTypes(l) }
+			res = lastRender()
 		case "hevc_fntv":
-			res = "ok:" + fmtHevcTypes(hevc.FindNaluTypesUpToFirstVideoNalu(d))
+			l := hevc.FindNaluTypesUpToFirstVideoNalu(d)
+			lastRender = func() string { return "ok:" + fmtHevcTypes(l) }
+			res = lastRender()
 		case "hevc_cnt":
 			res = "ok:" + fmtBool(hevc.ContainsNaluType(d, hevc.NaluType(a[0])))
 		case "hevc_rap":
@@ -155,12 +186,16 @@ func callOn(fn, args string, d []byte) (res string) {
 			res = "ok:" + fmtBool(hevc.HasParameterSets(d))
 		case "hevc_gps":
 			v, s, p := hevc.GetParameterSets(d)
-			res = "ok:" + fmtList(v) + ";" + fmtList(s) + ";" + fmtList(p)
+			lastRender = func() string { return "ok:" + fmtList(v) + ";" + fmtList(s) + ";" + fmtList(p) }
+			res = lastRender()
 		case "hevc_gpsb":
 			v, s, p := hevc.GetParameterSetsFromByteStream(d)
-			res = "ok:" + fmtList(v) + ";" + fmtList(s) + ";" + fmtList(p)
+			lastRender = func() string { return "ok:" + fmtList(v) + ";" + fmtList(s) + ";" + fmtList(p) }
+			res = lastRender()
 		case "hevc_enot":
-			res = "ok:" + fmtList(hevc.ExtractNalusOfTypeFromByteStream(hevc.NaluType(a[0]), d, a[1] == 1))
+			l := hevc.ExtractNalusOfTypeFromByteStream(hevc.NaluType(a[0]), d, a[1] == 1)
+			lastRender = func() string { return "ok:" + fmtList(l) }
+			res = lastRender()
 		default:
 			panic("unknown fn " + fn)
 		}
@@ -649,6 +684,7 @@ func short(s string) string {
 func check(site, fn, args string, in []byte, want string, what string) {
 	evals++
 	got := call(fn, args, in)
+	hygABA(site, fn, args, in, got)
 	if got != want {
 		class := "wrong-result"
 		if got == "panic" {
@@ -721,6 +757,64 @@ func checkUnits(r *hx.Rng, hm bool, us []unit) {
 	check("avc.GetNalusFromSample", "gnfs", "-", sa, "ok:"+fmtList(ns), "units of the sample")
 	check("avc.ExtractNalusFromByteStream", "enb", "-", st, "ok:"+fmtList(ns), "units of the stream")
 	searchHelpers(r, hm, ns, st, sa)
+}
+
+// hygABA (search only) - hidden state between calls.  cur is the call just made (stream 2); stream 1 is (a) the call made
+// right before it (usually another function on other bytes) and (b) the previous call of the SAME function.  For both:
+// (1) what the library returned for stream 1 - start-code positions, NAL unit lists, type lists, converted bytes - still
+// reads the same after the call on stream 2 (no scratch storage shared between calls: result-changed-by-later-calls);
+// (2) stream 1 asked AGAIN answers as the first time (no cursor, cache or table left behind by stream 2:
+// depends-on-earlier-calls); (3) after that, what was returned for stream 2 still reads the same.
+type keptCall struct {
+	site, fn, args string
+	in             []byte
+	res            string
+	render         func() string
+}
+
+var prevCall *keptCall
+var prevByFn = map[string]*keptCall{}
+var hygSeen = map[string]int{}
+
+func (p *keptCall) report(class, desc string, between *keptCall) {
+	hygSeen[p.site+"/"+class]++
+	if hygSeen[p.site+"/"+class] <= 3 {
+		fail(p.site, class, fmt.Sprintf("%s %s %s", p.fn, p.args, hx.Hex(p.in)),
+			desc+fmt.Sprintf(" (the call in between: %s %s %s)", between.fn, between.args, short(hx.Hex(between.in))))
+	}
+}
+
+func (p *keptCall) stillReads(between *keptCall) {
+	if p.render == nil {
+		return
+	}
+	var s string
+	if pn := hx.Try(func() { s = p.render() }); pn != "" || s != p.res {
+		p.report("result-changed-by-later-calls", "the value returned for this input reads "+short(s)+" after a later call, "+short(p.res)+" before", between)
+	}
+}
+
+func hygABA(site, fn, args string, in []byte, res string) {
+	if k := strings.Index(res, "|"); k >= 0 {
+		res = res[:k] // the capacity oracle of call() has reported already
+	}
+	cur := &keptCall{site, fn, args, in, res, lastRender}
+	for _, p := range []*keptCall{prevCall, prevByFn[fn]} {
+		if p == nil {
+			continue
+		}
+		evals++
+		p.stillReads(cur)
+		if again := callOn(p.fn, p.args, hx.Exact(p.in)); again != p.res {
+			p.report("depends-on-earlier-calls", "asked again after another call: "+short(again)+", the first time "+short(p.res), cur)
+		}
+		cur.stillReads(p)
+	}
+	prevCall, prevByFn[fn] = cur, cur
+	if len(in) > 1<<16 || strings.HasPrefix(res, "panic") {
+		prevCall = nil // the 64 KiB / 16 MiB units are not kept and not asked twice
+		delete(prevByFn, fn)
+	}
 }
 
 func search(seed uint64, n, plen int, bgs []int) {
